@@ -50,6 +50,10 @@ def build(name="SH"):
     for k in (8, 16):
         m.add("X%d" % k, Type("SEQUENCE", comps=[Comp("a%d" % k, Type("INTEGER"))],
                               ext=[Comp("e%d-%d" % (k, i), Type("INTEGER"), optional=True) for i in range(1, k + 1)]))
+    # more than 64 extension additions / alternatives / enumeration items: "normally small" numbers and lengths above 63 / 64
+    m.add("X70", Type("SEQUENCE", comps=[Comp("a70", Type("INTEGER"))], ext=[Comp("e70-%d" % i, Type("INTEGER"), optional=True) for i in range(1, 71)]))
+    m.add("N70", Type("ENUMERATED", items=[("r70", 0)], ext_items=[("n70-%d" % i, i) for i in range(1, 71)]))
+    m.add("C70", Type("CHOICE", comps=[Comp("z70", Type("NULL"))], ext=[Comp("c70-%d" % i, Type("INTEGER")) for i in range(1, 71)]))
     # a SET with DEFAULT members kept inline (INTEGER, BOOLEAN) next to an OPTIONAL one
     m.add("D1", Type("SET", comps=[Comp("user", Type("IA5String")), Comp("retries", Type("INTEGER"), has_default=True, default=0),
                                    Comp("quota", Type("INTEGER"), has_default=True, default=10),
@@ -391,6 +395,12 @@ def values(mod, name, rng, quick):
         k = int(name[1:])
         out += [{"a%d" % k: 7}, {"a%d" % k: 7, "e%d-1" % k: 1, "e%d-%d" % (k, k): k}, {"a%d" % k: 1, "e%d-%d" % (k, k): -1},
                 dict([("a%d" % k, 0)] + [("e%d-%d" % (k, i), i) for i in range(1, k + 1)]), {"a%d" % k: 2, "e%d-%d" % (k, k // 2): 5}]
+    elif name == "X70":
+        out += [{"a70": 1}, {"a70": 1, "e70-70": 5}, {"a70": 1, "e70-1": 5}, {"a70": 1, "e70-64": 5, "e70-65": 6}, {"a70": 1, "e70-63": -1}]
+    elif name == "N70":
+        out += [0, 1, 63, 64, 65, 70]
+    elif name == "C70":
+        out += [("z70", None), ("c70-1", 3), ("c70-64", 3), ("c70-65", 3), ("c70-70", -3)]
     elif name == "D1":
         out += [{"user": "bob"}, {"user": "bob", "retries": 3}, {"user": "al", "quota": 11, "flag": True}, {"user": "x", "note": "n"},
                 {"user": "y", "retries": 0, "quota": 10, "flag": False}, {"user": "z", "retries": 1, "quota": 2, "flag": True, "note": ""}]
